@@ -1208,7 +1208,15 @@ package valid
 //@   modifies nothing
 //@   ensures ds.ok(result) && fresh(result)
 
+// C20 comma discipline: expN(t, i) — some field among 0..i-1 is exported by the code's (ASCII upper case) criterion.
+//@ spec expN(t RType, i Int) Bool
+//@ axiom [expN.zero] forall(t RType :: {expN(t, 0)} !expN(t, 0))
+//@ axiom [expN.step] forall(t RType, i Int :: {rt.fieldName(t, i)} i >= 0 ==> (expN(t, i + 1) <==> (expN(t, i) || (len(rt.fieldName(t, i)) > 0 && 65 <= rt.fieldName(t, i)[0] && rt.fieldName(t, i)[0] <= 90))))
+
 //@ func (*dumpStruct).HandleDumpStruct
+//@   loop#0 invariant [C20 dump.comma] (needAddComma <==> expN(ty, i)) && (!needAddComma ==> sb.content(d.buf) == old(sb.content(d.buf)) ++ "{")
+//@   at call loopHandleKV#1 assert [C20 dump.comma] ite(expN(ty, i), suffixof(",", sb.content(d.buf)), sb.content(d.buf) == old(sb.content(d.buf)) ++ "{")
+//@   at call loopHandleKV#0 assert [C20 dump.comma] sb.content(d.buf) == old(sb.content(d.buf)) ++ "{"
 //@   let tv0 = ite(rv.kind(v) == 22, rv.elem(v), v)
 //@   ensures [C20 dump.null] !rv.valid(tv0) ==> sb.content(d.buf) == old(sb.content(d.buf)) ++ "null"
 //@   ensures [C20 dump.object] rv.valid(tv0) && rv.kind(tv0) == 25 ==> prefixof(old(sb.content(d.buf)) ++ "{", sb.content(d.buf)) && suffixof("}", sb.content(d.buf)) && len(sb.content(d.buf)) >= len(old(sb.content(d.buf))) + 2
